@@ -17,7 +17,7 @@ import (
 
 var c15Zones = map[string]bool{"filter": true, "query": true, "q": true, "u": true, "update": true, "updates": true, "sort": true, "documents": true, "pipeline": true, "deletes": true}
 
-var reIxscan = regexp.MustCompile(`IXSCAN \{ ([^}]*) \}`)
+var reIxscan = regexp.MustCompile(`[A-Z][A-Z_0-9]* \{ ([^}]*) \}`)
 
 // c15SummaryKeys tokenises a plan summary into index-key lists per IXSCAN clause.
 func c15SummaryKeys(s string) ([][]string, bool) {
